@@ -7,9 +7,9 @@ python3 - <<'PY'
 import re, subprocess
 out = subprocess.run(["git","diff","--name-only","--diff-filter=U"],capture_output=True,text=True).stdout.split()
 for f in out:
-    if f == "known_findings.txt":
+    if f in ("known_findings.txt", "DESIGN.md"):
         s = open(f).read()
-        s = s.replace('<<<<<<< HEAD\n','').replace('=======\n','')
+        s = s.replace('<<<<<<< HEAD\n','').replace('=======\n','\n' if f == 'DESIGN.md' else '')
         s = re.sub(r'>>>>>>> a-[\w-]+\n','',s)
         open(f,'w').write(s)
     elif f in ("MANIFEST.json","lean/Driver/Main.lean") or f.startswith("evidence/"):
